@@ -23,6 +23,7 @@ CONSTANTS Filters,      \* d x nd integer matrix (unit step domain)
           BgPool,       \* sequence of background spectra (length nd integer sequences)
           XaPool,       \* sequence of adaptation intensity vectors (integer sequences, any length: must match n)
           TgtPool,      \* sequence of target sets (sequence of d-vectors of rationals)
+          UncPool,      \* sequence of filter uncertainties (d x nd integer matrices: standard deviation per filter sample)
           WPool,        \* sequence of explicit per-receptor weightings W (d-vectors of integers) for register_targets
           MaxDK         \* magnitude guard: adaptation steps whose common denominator exceeds it are not explored
 
@@ -43,9 +44,17 @@ SpecCapture(sig) == [i \in 1..D0 |-> TrapzUnit2(Prod(Filters[i], sig)) \div 2]
 CaptureMatrix(src) == [i \in 1..D0 |-> [k \in 1..Len(src) |-> TrapzUnit2(Prod(Filters[i], src[k])) \div 2]]
 (* only spectra with zero end points are used, so the doubled integral is even *)
 
+(* variance capture: the filters' variance (sd squared) integrated against the   *)
+(* squared spectrum (ReceptorEstimator.uncertainty_capture, 2-D uncertainty)     *)
+Sq(v) == [k \in 1..Len(v) |-> v[k] * v[k]]
+VarCapture(fu, sig) == [i \in 1..D0 |-> TrapzUnit2(Prod(Sq(fu[i]), Sq(sig))) \div 2]
+VarCaptureMatrix(fu, src) == [i \in 1..D0 |-> [k \in 1..Len(src) |-> TrapzUnit2(Prod(Sq(fu[i]), Sq(src[k]))) \div 2]]
+
 InitEst == [K |-> RDiag(Vec(D0, R1)), kshape |-> "1", bl |-> Vec(D0, R0), blshape |-> "1",
             reg |-> FALSE, A |-> <<>>, lb |-> <<>>, ub |-> <<>>,
-            treg |-> FALSE, tB |-> <<>>, W |-> Vec(D0, 1), fitted |-> FALSE, nfit |-> 0]
+            treg |-> FALSE, tB |-> <<>>, W |-> Vec(D0, 1), fitted |-> FALSE, nfit |-> 0,
+            fu |-> <<>>,      \* registered filter uncertainty; <<>> = None
+            Eps |-> <<>>]     \* capture variance per filter and source; <<>> = 'heteroscedastic' (or no system yet)
 
 Init == est = InitEst /\ hist = <<>>
 
@@ -60,8 +69,18 @@ RegisterSystem(k, bk) ==
       lb == IF bp[1] = <<>> THEN Vec(n, R0) ELSE bp[1]
       ub == IF bp[2] = <<>> THEN Vec(n, <<INF, 1>>) ELSE bp[2]
   IN /\ (bp[1] = <<>> \/ Len(bp[1]) = n) /\ (bp[2] = <<>> \/ Len(bp[2]) = n)
-     /\ est' = [est EXCEPT !.reg = TRUE, !.A = CaptureMatrix(src), !.lb = lb, !.ub = ub]
+     /\ est' = [est EXCEPT !.reg = TRUE, !.A = CaptureMatrix(src), !.lb = lb, !.ub = ub,
+                           !.Eps = IF est.fu = <<>> THEN <<>> ELSE VarCaptureMatrix(est.fu, src)]
      /\ Log(Act("register_system", k * 100 + bk, FALSE, FALSE))
+
+(* Deviation named, not idealised: the capture variance Epsilon is computed once,  *)
+(* by register_system, from the uncertainty registered AT THAT TIME.  Registering   *)
+(* an uncertainty afterwards changes uncertainty_capture() at once but leaves the   *)
+(* system's Epsilon (and with it minimize_variance) as it was until the system is   *)
+(* registered again.  k = 0 registers None.                                         *)
+RegisterUncertainty(k) ==
+  /\ est' = [est EXCEPT !.fu = IF k = 0 THEN <<>> ELSE UncPool[k]]
+  /\ Log(Act("register_uncertainty", k, FALSE, FALSE))
 
 RegisterBounds(bk) ==
   LET bp == BoundPool[bk]
@@ -178,7 +197,8 @@ ErrorsOf(e) ==
       range_not_underdetermined |-> IF ~e.reg THEN "AssertionError" ELSE IF under THEN "n/a" ELSE "ValueError",
       fit_underdetermined_not_under |-> IF ~e.reg THEN "AssertionError" ELSE IF under THEN "n/a" ELSE "AssertionError",
       gamut_metric |-> IF ~e.reg THEN "AssertionError" ELSE IF bounded THEN "ok" ELSE "ValueError",
-      sample_unknown_engine |-> IF ~e.reg THEN "AssertionError" ELSE IF bounded THEN "NameError" ELSE "n/a"]
+      sample_unknown_engine |-> IF ~e.reg THEN "AssertionError" ELSE IF bounded THEN "NameError" ELSE "n/a",
+      uncertainty_capture |-> IF e.fu = <<>> THEN "AssertionError" ELSE "ok"]
 
 Answers(e) ==
   [capture |-> [k \in 1..Len(BgPool) |-> SpecCapture(BgPool[k])],
@@ -187,6 +207,9 @@ Answers(e) ==
    registered |-> e.reg, registered_targets |-> e.treg,
    lb |-> e.lb, ub |-> e.ub,
    tB |-> e.tB, W |-> e.W, fitted |-> e.fitted, nfit |-> e.nfit,
+   has_uncertainty |-> e.fu # <<>>,
+   uncertainty_capture |-> IF e.fu = <<>> THEN <<>> ELSE [k \in 1..Len(BgPool) |-> VarCapture(e.fu, BgPool[k])],
+   Epsilon |-> e.Eps,
    errors |-> ErrorsOf(e),
    sys |-> IF e.reg THEN SysAnswers(e) ELSE [none |-> TRUE]]
 
@@ -201,6 +224,7 @@ Register ==
   \/ \E k \in 1..Len(BgPool), add \in BOOLEAN, ab \in BOOLEAN : RegisterBackgroundAdaptation(k, add, ab)
   \/ \E k \in 1..Len(XaPool), add \in BOOLEAN, ab \in BOOLEAN : RegisterSystemAdaptation(k, add, ab)
   \/ \E k \in 1..Len(TgtPool), wk \in 0..Len(WPool) : RegisterTargets(k, wk)
+  \/ \E k \in 0..Len(UncPool) : RegisterUncertainty(k)
   \/ FitInternal
 ENext == Register \/ Query
 
@@ -213,18 +237,26 @@ FrameOK ==
   [][LET a == hist'[Len(hist')]
      IN hist' # hist =>
         /\ (a.op \in {"register_adaptation", "register_background_adaptation", "register_system_adaptation"}
-              => \A f \in {"bl", "blshape", "reg", "A", "lb", "ub", "treg", "tB", "W", "fitted", "nfit"} : ~Wrote(f))
-        /\ (a.op = "register_baseline" => \A f \in {"K", "kshape", "reg", "A", "lb", "ub", "treg", "tB", "W", "fitted", "nfit"} : ~Wrote(f))
-        /\ (a.op = "register_bounds" => \A f \in {"K", "kshape", "bl", "blshape", "reg", "A", "treg", "tB", "W", "fitted", "nfit"} : ~Wrote(f))
-        /\ (a.op = "register_system" => \A f \in {"K", "kshape", "bl", "blshape", "treg", "tB", "W", "fitted", "nfit"} : ~Wrote(f))
-        /\ (a.op = "register_targets" => \A f \in {"K", "kshape", "bl", "blshape", "reg", "A", "lb", "ub"} : ~Wrote(f))
-        /\ (a.op = "fit" => \A f \in {"K", "kshape", "bl", "blshape", "reg", "A", "lb", "ub", "treg", "tB", "W"} : ~Wrote(f))
+              => \A f \in {"bl", "blshape", "reg", "A", "lb", "ub", "treg", "tB", "W", "fitted", "nfit", "fu", "Eps"} : ~Wrote(f))
+        /\ (a.op = "register_baseline" => \A f \in {"K", "kshape", "reg", "A", "lb", "ub", "treg", "tB", "W", "fitted", "nfit", "fu", "Eps"} : ~Wrote(f))
+        /\ (a.op = "register_bounds" => \A f \in {"K", "kshape", "bl", "blshape", "reg", "A", "treg", "tB", "W", "fitted", "nfit", "fu", "Eps"} : ~Wrote(f))
+        /\ (a.op = "register_system" => \A f \in {"K", "kshape", "bl", "blshape", "treg", "tB", "W", "fitted", "nfit", "fu"} : ~Wrote(f))
+        /\ (a.op = "register_targets" => \A f \in {"K", "kshape", "bl", "blshape", "reg", "A", "lb", "ub", "fu", "Eps"} : ~Wrote(f))
+        /\ (a.op = "register_uncertainty" => \A f \in {"K", "kshape", "bl", "blshape", "reg", "A", "lb", "ub", "treg", "tB", "W", "fitted", "nfit", "Eps"} : ~Wrote(f))
+        /\ (a.op = "fit" => \A f \in {"K", "kshape", "bl", "blshape", "reg", "A", "lb", "ub", "treg", "tB", "W", "fu", "Eps"} : ~Wrote(f))
     ]_evars
 (* after adapting to a background (baseline included) its relative capture is 1     *)
 AdaptedBackgroundIsOne ==
   [][LET a == hist'[Len(hist')]
      IN (hist' # hist /\ a.op = "register_background_adaptation" /\ ~a.add /\ a.ab)
           => RelOf(est', RVec(SpecCapture(BgPool[a.k]))) = Vec(D0, R1)
+    ]_evars
+(* the system's Epsilon is the variance capture of its sources under the uncertainty  *)
+(* that was registered when the system was registered (or 'heteroscedastic')          *)
+EpsilonFromRegistrationTime ==
+  [][LET a == hist'[Len(hist')]
+     IN (hist' # hist /\ a.op = "register_system")
+          => est'.Eps = IF est.fu = <<>> THEN <<>> ELSE VarCaptureMatrix(est.fu, SrcPool[a.k \div 100])
     ]_evars
 AdaptedSystemIsOne ==
   [][LET a == hist'[Len(hist')]
